@@ -108,6 +108,14 @@ MUTANTS = [
  ("c02-earlier-line", "C02", "C02.R3", "html/layout/blocks.go", "resumeAt = tree.ResumeStack{0: newChildren[len(newChildren)-1].(*bo.LineBox).ResumeAt}", "resumeAt = tree.ResumeStack{0: children[index].(*bo.LineBox).ResumeAt}"),
  ("c02-dropped-resume", "C02", "C02.R2", "html/layout/flex.go", "\t\t\t\tchildResumeAt := tmp.resumeAt\n\t\t\t\tif newChild == nil {\n\t\t\t\t\tif resumeAt != nil {", "\t\t\t\tvar childResumeAt tree.ResumeStack\n\t\t\t\t_ = tmp\n\t\t\t\tif newChild == nil {\n\t\t\t\t\tif resumeAt != nil {"),
  # behaviour-preserving edits: must stay silent
+ ("ok-key-commuted", "C02", "", "html/layout/tables.go", "indexRow := i + skip", "indexRow := skip + i"),
+ ("ok-separate-negated", "C13", "", "html/layout/tables.go", "\tif table.Style.GetBorderCollapse() == \"separate\" {\n\t\tborderSpacingX", "\tif table.Style.GetBorderCollapse() != \"collapse\" {\n\t\tborderSpacingX"),
+ ("ok-edge-cond-reordered", "C10", "", "html/layout/blocks.go", "if pr.Is(box.BorderBottomWidth) || pr.Is(box.PaddingBottom) ||", "if pr.Is(box.PaddingBottom) || pr.Is(box.BorderBottomWidth) ||"),
+ ("ok-extremum-flipped", "C11", "", "html/layout/inline.go", "childrenMaxY != nil && childrenMaxY.V() > maxY.V()", "childrenMaxY != nil && maxY.V() < childrenMaxY.V()"),
+ ("ok-sides-spelled-out", "C12", "", "html/layout/pages.go", "\t\tif directionLtr != breakVerso {", "\t\tif (directionLtr && !breakVerso) || (!directionLtr && breakVerso) {"),
+ ("ok-snapshot-append", "C15", "", "html/boxes/build.go", "origQuoteDepth := make([]int, len(quoteDepth))", "origQuoteDepth := append([]int(nil), quoteDepth...)"),
+ ("ok-depth-guarded", "C01", "", "html/boxes/build.go", "quoteDepth[0] = utils.MaxInt(0, quoteDepth[0]-1)", "if quoteDepth[0] > 0 {\n\t\t\t\t\t\tquoteDepth[0]--\n\t\t\t\t\t}"),
+ ("ok-rewind-two-steps", "C06", "", "css/parser/parser.go", "\t\ttokens = NewIter(append(append(declarationTokens, semicolonToken...), tokens.tail()...))", "\t\trebuilt := append(declarationTokens, semicolonToken...)\n\t\ttokens = NewIter(append(rebuilt, tokens.tail()...))"),
  ("ok-rename-local", "C03", "", "html/tree/style.go", "oldWeight := style[decl.Name].weight\n\t\t\tif oldWeight.isNone() || oldWeight.Less(we) {", "previous := style[decl.Name].weight\n\t\t\tif previous.isNone() || previous.Less(we) {"),
  ("ok-early-continue", "C03", "", "html/tree/style.go", "\t\t\tif oldWeight.isNone() || oldWeight.Less(we) {\n\t\t\t\tstyle[decl.Name] = weigthedValue{weight: we, value: decl.Value, shortand: decl.Shortand}\n\t\t\t}\n\t\t}\n\t}\n\n\t// First, add", "\t\t\tif !(oldWeight.isNone() || oldWeight.Less(we)) {\n\t\t\t\tcontinue\n\t\t\t}\n\t\t\tstyle[decl.Name] = weigthedValue{weight: we, value: decl.Value, shortand: decl.Shortand}\n\t\t}\n\t}\n\n\t// First, add"),
  ("ok-grid-copy-form", "C15", "", "html/layout/grid.go", "\tnames, _ := track.(pr.GridNames)\n\treturn append(pr.GridNames(nil), names...)", "\tnames, _ := track.(pr.GridNames)\n\tout := make(pr.GridNames, len(names))\n\tcopy(out, names)\n\treturn out"),
